@@ -1,0 +1,183 @@
+//! Verification hooks (cargo feature `verif-hooks`, off by default).
+//!
+//! Thin constructors over crate-private items so that an external harness can run the
+//! production client loop, server session and frame reader over a caller-supplied byte stream.
+//! Nothing here changes behaviour: with the feature off this module does not exist.
+
+use std::num::NonZeroUsize;
+use std::sync::Arc;
+use std::time::Duration;
+
+use crate::client::task::{ClientLoop, SessionError, StateChange};
+use crate::client::Channel;
+use crate::common::frame::{FrameDestination, FrameWriter, FramedReader};
+use crate::common::phys::PhysLayer;
+use crate::server::task::{AuthorizationType, ServerCommand, SessionTask};
+use crate::server::{AuthorizationHandler, RequestHandler, ServerHandlerMap};
+use crate::{DecodeLevel, RequestError};
+
+/// Any in-memory (or other) byte stream
+pub trait VerifIo: tokio::io::AsyncRead + tokio::io::AsyncWrite + Unpin + Send {}
+impl<T> VerifIo for T where T: tokio::io::AsyncRead + tokio::io::AsyncWrite + Unpin + Send {}
+
+/// Which framing / parser role to use
+#[derive(Copy, Clone, Debug, PartialEq, Eq)]
+pub enum Framing {
+    /// MBAP (TCP / TLS)
+    Tcp,
+    /// RTU, parsing requests (server side)
+    RtuRequest,
+    /// RTU, parsing responses (client side)
+    RtuResponse,
+}
+
+impl Framing {
+    fn reader(self) -> FramedReader {
+        match self {
+            Framing::Tcp => FramedReader::tcp(),
+            #[cfg(feature = "serial")]
+            Framing::RtuRequest => FramedReader::rtu_request(),
+            #[cfg(feature = "serial")]
+            Framing::RtuResponse => FramedReader::rtu_response(),
+            #[cfg(not(feature = "serial"))]
+            _ => FramedReader::tcp(),
+        }
+    }
+
+    fn writer(self) -> FrameWriter {
+        match self {
+            Framing::Tcp => FrameWriter::tcp(),
+            #[cfg(feature = "serial")]
+            _ => FrameWriter::rtu(),
+            #[cfg(not(feature = "serial"))]
+            _ => FrameWriter::tcp(),
+        }
+    }
+}
+
+/// A frame as delivered by the production `FramedReader`
+#[derive(Clone, Debug, PartialEq, Eq)]
+pub struct RawFrame {
+    /// transaction id (MBAP only)
+    pub tx_id: Option<u16>,
+    /// destination byte
+    pub destination: u8,
+    /// true if the parser classified the destination as broadcast
+    pub broadcast: bool,
+    /// PDU bytes (function code first)
+    pub payload: Vec<u8>,
+}
+
+/// The production `FramedReader` (ReadBuffer + parser) over a caller supplied stream
+pub struct Reader {
+    reader: FramedReader,
+    io: PhysLayer,
+}
+
+impl Reader {
+    pub fn new(framing: Framing, io: Box<dyn VerifIo>) -> Self {
+        Self {
+            reader: framing.reader(),
+            io: PhysLayer::new_verif(io),
+        }
+    }
+
+    pub async fn next_frame(&mut self, decode: DecodeLevel) -> Result<RawFrame, RequestError> {
+        let frame = self.reader.next_frame(&mut self.io, decode).await?;
+        Ok(RawFrame {
+            tx_id: frame.header.tx_id.map(|x| x.to_u16()),
+            destination: frame.header.destination.value(),
+            broadcast: matches!(frame.header.destination, FrameDestination::Broadcast),
+            payload: frame.payload().to_vec(),
+        })
+    }
+}
+
+fn session_error_name(err: SessionError) -> String {
+    match err {
+        SessionError::IoError(k) => format!("Io({k:?})"),
+        SessionError::BadFrame => "BadFrame".to_string(),
+        SessionError::Disabled => "Disabled".to_string(),
+        SessionError::MaxTimeouts(n) => format!("MaxTimeouts({n})"),
+        SessionError::Shutdown => "Shutdown".to_string(),
+    }
+}
+
+fn state_change_name(x: Result<(), StateChange>) -> &'static str {
+    match x {
+        Ok(()) => "Elapsed",
+        Err(StateChange::Disable) => "Disable",
+        Err(StateChange::Shutdown) => "Shutdown",
+    }
+}
+
+/// The production `ClientLoop`, owned by the caller instead of by a TCP / serial channel task
+pub struct ClientSession {
+    inner: ClientLoop,
+}
+
+impl ClientSession {
+    pub fn new(
+        framing: Framing,
+        queue: usize,
+        decode: DecodeLevel,
+        max_timeouts: Option<NonZeroUsize>,
+    ) -> (Channel, Self) {
+        let (tx, rx) = tokio::sync::mpsc::channel(queue);
+        let reader = match framing {
+            Framing::Tcp => Framing::Tcp.reader(),
+            _ => Framing::RtuResponse.reader(),
+        };
+        (
+            Channel { tx },
+            Self {
+                inner: ClientLoop::new(rx.into(), framing.writer(), reader, decode, max_timeouts),
+            },
+        )
+    }
+
+    pub fn is_enabled(&self) -> bool {
+        self.inner.is_enabled()
+    }
+
+    /// true => enabled, false => shutdown
+    pub async fn wait_for_enabled(&mut self) -> bool {
+        self.inner.wait_for_enabled().await.is_ok()
+    }
+
+    /// run one connection, returns the name of the session error that ended it
+    pub async fn run(&mut self, io: Box<dyn VerifIo>) -> String {
+        let mut phys = PhysLayer::new_verif(io);
+        session_error_name(self.inner.run(&mut phys).await)
+    }
+
+    pub async fn fail_requests_for(&mut self, duration: Duration) -> &'static str {
+        state_change_name(self.inner.fail_requests_for(duration).await)
+    }
+
+    pub async fn fail_requests(&mut self) -> &'static str {
+        state_change_name(Err(self.inner.fail_requests().await))
+    }
+}
+
+/// Run the production server `SessionTask` over a caller supplied stream until it ends
+pub async fn run_server_session<T: RequestHandler>(
+    io: Box<dyn VerifIo>,
+    handlers: ServerHandlerMap<T>,
+    auth: Option<(Arc<dyn AuthorizationHandler>, String)>,
+    framing: Framing,
+    decode: DecodeLevel,
+    commands: tokio::sync::mpsc::Receiver<ServerCommand>,
+) -> RequestError {
+    let auth = match auth {
+        None => AuthorizationType::None,
+        Some((handler, role)) => AuthorizationType::Handler(handler, role),
+    };
+    let reader = match framing {
+        Framing::Tcp => Framing::Tcp.reader(),
+        _ => Framing::RtuRequest.reader(),
+    };
+    let mut session = SessionTask::new(handlers, auth, framing.writer(), reader, commands, decode);
+    let mut phys = PhysLayer::new_verif(io);
+    session.run(&mut phys).await
+}
